@@ -439,6 +439,138 @@ def run_tree_case(ctx, index: int, *, salt="tree"):
     return [(sig, what, {**case, **extra}) for sig, what, extra in found], case
 
 
+# ---------------------------------------------------------------------------------------------
+# Fourth family: a consumer that reads first and amends afterwards, added to a project that was
+# built before, in a rebuild with several jobs (the freshness guard of `amend_step` decides whether
+# the consumer saw the final file; the scratch reference runs with one job)
+# ---------------------------------------------------------------------------------------------
+
+
+def gen_timing_project(rng):
+    """Like `buildkit.gen_amend_timing_project`, shaped so that the decisive interleaving (the
+    consumer starts, the producer stops, a filler starts, another filler stops, the consumer amends)
+    is frequent under a random schedule with five jobs: a quick producer, a slow consumer, 4-5 short
+    fillers (measured: the pruning fault of seed C02-2 shows in 7-9 % of the builds)."""
+    from simdirector import A, Project, plan_file
+
+    nfill = rng.randint(4, 5)
+    pn, cn = rng.randint(0, 2), rng.randint(4, 5)
+    plan = [A.static("src/a.txt", "src/b.txt")]
+    scripts = {}
+    prod = f"make f -n{pn}"
+    scripts[prod] = [A.read_declared(), *[A.nop() for _ in range(pn)], A.write_declared()]
+    cons = f"scan f -n{cn}"
+    scripts[cons] = [A.read_declared(), A.read("out/f.txt", required=False), *[A.nop() for _ in range(cn)],
+                     A.amend(inp=["out/f.txt"]), A.write_declared()]
+    steps = [A.step(prod, inp=["src/a.txt"], out=["out/f.txt"]), A.step(cons, inp=["src/b.txt"], out=["out/scan.txt"])]
+    for i in range(nfill):
+        k = rng.randint(0, 3)
+        label = f"fill {i} -n{k}"
+        scripts[label] = [A.read_declared(), *[A.nop() for _ in range(k)], A.write_declared()]
+        steps.append(A.step(label, inp=["src/a.txt"], out=[f"out/fill{i}.txt"]))
+    rng.shuffle(steps)
+    plan.extend(steps)
+    scripts["./plan.py"] = plan
+    project = Project(scripts=scripts, files={"src/a.txt": "a\n", "src/b.txt": "b\n", "plan.py": plan_file(plan)})
+    return project, {"nfill": nfill, "producer": prod, "consumer": cons}
+
+
+class TimingSchedule:
+    """Steers a build of `gen_timing_project` into the interleaving that makes the freshness guard
+    of `amend_step` decisive: the consumer reads the old file; the producer completes; then filler X
+    starts; then filler Y (started before) completes while the consumer and X still run; only then
+    does the consumer amend.  A schedule can only choose among the gates that are waiting, so the
+    plan is a preference: when only gates that should wait are waiting, the oldest is released."""
+
+    def __init__(self, prod: str, cons: str, x: str, y: str, seed: int):
+        import random as _random
+
+        self.prod, self.cons, self.x, self.y = prod, cons, x, y
+        self.done: set = set()
+        self.rng = _random.Random(seed)
+
+    def _phase(self) -> int:
+        d = self.done
+        if ("step", self.cons, 2) not in d:
+            return 0  # the consumer has not read the old file yet (gates: read_declared, its one input, the file)
+        if ("exit", self.prod) not in d or ("shash2", self.prod) not in d:
+            return 1  # the producer has not completed yet
+        if ("step", self.x, 0) not in d:
+            return 2  # X has not started yet
+        if ("exit", self.y) not in d or ("shash2", self.y) not in d:
+            return 3  # Y has not completed yet
+        return 4
+
+    def _rank(self, key, phase) -> int:
+        kind, label, _a, idx = key
+        if label == self.x and phase < 2:
+            return 9  # X must not start before the producer has stopped
+        if label == self.cons:
+            if kind == "step" and idx >= 3 and phase < 4:
+                return 8  # the consumer waits (between its read and its amend) for the others
+            return 0 if phase in (0, 4) else 5
+        if label == self.prod:
+            if phase == 0:
+                return 7 if kind in ("step", "exit") else 2  # the producer may start, not write, before the read
+            return 1 if phase == 1 else 5
+        if label == self.y:
+            if phase < 3 and kind == "exit":
+                return 7  # Y keeps running until X has started
+            return 1 if phase == 3 else 2
+        if label == self.x:
+            return 1 if phase == 2 else 6
+        return 3
+
+    def choose(self, keys):
+        phase = self._phase()
+        ranks = [self._rank(k, phase) for k in keys]
+        best = min(ranks)
+        i = ranks.index(best)
+        kind, label, _a, idx = keys[i]
+        if kind == "step":
+            self.done.add(("step", label, idx))
+        elif kind == "exit":
+            self.done.add(("exit", label))
+        elif kind == "shash" and idx >= 1:
+            self.done.add(("shash2", label))
+        return i
+
+
+def run_timing_case(ctx, index: int, *, salt="timing"):
+    import copy as _copy
+
+    from simdirector import plan_file
+
+    r = ctx.rng(salt, index)
+    full, info = gen_timing_project(r)
+    cons = info["consumer"]
+    plan = full.scripts["./plan.py"]
+    # the project before the edit: without the consumer, and with the old source text
+    before = _copy.deepcopy(full)
+    plan0 = [a for a in plan if not (isinstance(a, (tuple, list)) and len(a) > 1 and isinstance(a[1], dict)
+                                     and a[1].get("cmd") == cons)]
+    if len(plan0) == len(plan):
+        return [], {"compared": False, "info": info}
+    before.scripts["./plan.py"] = plan0
+    before.files["plan.py"] = plan_file(plan0)
+    final = _copy.deepcopy(full)
+    final.files["src/a.txt"] = "a, edited\n"
+    fills = sorted(label for label in full.scripts if label.startswith("fill "))
+    x, y = r.sample(fills, 2)
+    directed = index % 2 == 0
+    spec = ("directed", x, y) if directed else ("random", r.randrange(1 << 30))
+    njob = 7 if directed else 5
+    sched = (TimingSchedule(info["producer"], cons, x, y, r.randrange(1 << 30)) if directed
+             else buildkit.make_schedule(spec))
+    events = [("build", {"njob": r.randint(1, 2)}), ("edits", projgen._edits_between(before, final)),
+              ("build", {"njob": njob, "schedule": sched})]
+    seed = r.randrange(1 << 30)
+    found, summary = evaluate(before, events, final, seed, {"njob": 1})
+    case = {"family": "amend-timing", "njob": njob, "schedule": list(spec), **info,
+            "compared": bool(summary.get("fresh_ok"))}
+    return [(sig, what, {**case, **extra}) for sig, what, extra in found], case
+
+
 def report(ctx, index, salt, found, hist):
     for sig, what, extra in found:
         if sig.startswith("out-of-scope:"):
@@ -517,6 +649,24 @@ async def search(ctx):
                 "case": {"verif_seed": ctx.seed, "salt": "tree", "index": i}, **extra,
                 "how": "props/c01.py run_tree_case(ctx, index): buildkit.gen_tree_history (nested and sibling "
                        "plans), compared with a build from scratch of the final tree"}))
+    for i in range(ctx.budget(40, 800)):
+        found, case = await asyncio.to_thread(run_timing_case, ctx, i)
+        st.case(("timing", case.get("njob"), case.get("producer"), case.get("consumer"), case.get("nfill")),
+                nontrivial=bool(case.get("compared")))
+        st.programs += 1
+        st.count("amend-timing-histories")
+        if not case.get("compared"):
+            st.count("amend-timing-histories-not-compared")
+        for sig, what, extra in found:
+            if sig.startswith("out-of-scope:"):
+                st.count(sig)
+                continue
+            st.count("finding:" + sig)
+            ctx.finding(Finding(PID, sig, what, {
+                "case": {"verif_seed": ctx.seed, "salt": "timing", "index": i}, **extra,
+                "how": "props/c01.py run_timing_case(ctx, index): a producer/consumer project built without the "
+                       "consumer, then the source is edited and the consumer (reads first, amends afterwards) is added; "
+                       "rebuild with 3-5 jobs under a random schedule; compared with a one-job build from scratch"}))
     for i in range(ctx.budget(20, 250)):
         found, case = await asyncio.to_thread(run_redef_case, ctx, i)
         st.case(("redef", tuple(sorted((k, str(v)) for k, v in case.items()))))
@@ -567,6 +717,8 @@ async def replay(ctx, detail):
         found, summary = await asyncio.to_thread(run_redef_case, ctx, int(case.get("index", 0)))
     elif case.get("salt") == "tree":
         found, summary = await asyncio.to_thread(run_tree_case, ctx, int(case.get("index", 0)))
+    elif case.get("salt") == "timing":
+        found, summary = await asyncio.to_thread(run_timing_case, ctx, int(case.get("index", 0)))
     else:
         found, summary, hist = await asyncio.to_thread(run_case, ctx, int(case.get("index", 0)),
                                                        salt=case.get("salt", "hist"))
